@@ -61,6 +61,11 @@ void reb_calculate_acceleration(struct reb_simulation* r){
         r->gravity = REB_GRAVITY_BASIC;
 
     }
+    if (r->gravity == REB_GRAVITY_JACOBI && r->integrator != REB_INTEGRATOR_WHFAST && r->integrator != REB_INTEGRATOR_SABA){
+        // The WHFast kernels and the SABA correctors select this routine themselves. It omits the terms their Kepler step accounts for.
+        reb_simulation_warning(r,"You are using the Jacobi gravity routine with an integrator other than WHFast or SABA. This will probably lead to unexpected behaviour. REBOUND is now setting the gravity routine back to REB_GRAVITY_BASIC. To avoid this warning message, consider manually setting the gravity routine after changing integrators.");
+        r->gravity = REB_GRAVITY_BASIC;
+    }
     if (r->integrator != REB_INTEGRATOR_TRACE && r->gravity == REB_GRAVITY_TRACE){
         reb_simulation_warning(r,"You are using the TRACE gravity routine with a non-TRACE integrator. This will probably lead to unexpected behaviour. REBOUND is now setting the gravity routine back to REB_GRAVITY_BASIC. To avoid this warning message, consider manually setting the gravity routine after changing integrators.");
         r->gravity = REB_GRAVITY_BASIC;
